@@ -14,6 +14,9 @@ from harness.reftt import RefTT
 from harness.refsim import const_value
 
 PROPERTY = "C19"
+# not registered in MANIFEST.json: the ANML reader rejects more shapes of writer output than are classified
+# so far (DESIGN.md 12.1); tools_manifest.py lists the property under not_applicable instead
+REGISTER = False
 TECHNIQUE = "property-based round trip (ANMLWriter -> ANMLReader) judged by bisimulation with the reference semantics (instantaneous part) and structural + reference-verdict comparison (temporal part)"
 RULE = (
     "Typed classical, numeric (bounded / unbounded int and real fluents) and temporal problems (durative actions with start / "
